@@ -185,8 +185,6 @@ var transparentForeign = map[string]bool{
 	"github.com/cosmos/cosmos-sdk/x/staking/types.UnbondingDelegationEntry": true,
 	"github.com/cosmos/cosmos-sdk/x/staking/types.Redelegation":        true,
 	"github.com/cosmos/cosmos-sdk/x/staking/types.RedelegationEntry":   true,
-	"cosmossdk.io/collections.Pair":                                    true,
-	"cosmossdk.io/collections.Triple":                                  true,
 	"cosmossdk.io/collections.KeyValue":                                true,
 }
 
@@ -407,6 +405,12 @@ func (vc *VC) sortOf(t types.Type) string {
 	if s, ok := vc.sorts[key]; ok {
 		return s
 	}
+	if name, _ := pairArgs(t); name != "" {
+		s := vc.keySort(t)
+		vc.sorts[key] = s
+		vc.structs[s] = &structSort{name: s, opaque: true}
+		return s
+	}
 	if kindOf(t) == kOpaque {
 		name := "O_" + mangle(key)
 		vc.sorts[key] = name
@@ -516,6 +520,7 @@ const prelude = `(set-option :produce-models true)
 (declare-fun str_lt (Str Str) Bool)
 (declare-const iface_nil Iface)
 (declare-fun typeof (Iface) Int)
+(assert (= (typeof iface_nil) 0))
 (define-fun tdiv ((a Int) (b Int)) Int (ite (>= a 0) (ite (> b 0) (div a b) (- (div a (- b)))) (ite (> b 0) (- (div (- a) b)) (div (- a) (- b)))))
 (define-fun trem ((a Int) (b Int)) Int (- a (* b (tdiv a b))))
 (define-fun iabs ((a Int)) Int (ite (>= a 0) a (- a)))
@@ -547,13 +552,6 @@ func (vc *VC) render(prefix int, goal string, extra []string) string {
 func (vc *VC) renderL(prefix int, goal string, extra []string) string {
 	var b strings.Builder
 	b.WriteString(prelude)
-	for _, l := range vc.sortDecl {
-		if vc.dropQuant && strings.HasPrefix(l, "(assert (forall") {
-			continue
-		}
-		b.WriteString(l)
-		b.WriteByte('\n')
-	}
 	if len(vc.strorder) > 0 {
 		for _, s := range vc.strorder {
 			c := vc.strlits[s]
@@ -566,6 +564,13 @@ func (vc *VC) renderL(prefix int, goal string, extra []string) string {
 			}
 			b.WriteString("))\n")
 		}
+	}
+	for _, l := range vc.sortDecl {
+		if vc.dropQuant && strings.HasPrefix(l, "(assert (forall") {
+			continue
+		}
+		b.WriteString(l)
+		b.WriteByte('\n')
 	}
 	for _, l := range vc.lines[:prefix] {
 		if vc.dropQuant && (strings.Contains(l, "(forall ") || strings.Contains(l, "(exists ")) {
@@ -580,4 +585,25 @@ func (vc *VC) renderL(prefix int, goal string, extra []string) string {
 	}
 	b.WriteString("(assert (not " + goal + "))\n(check-sat)\n")
 	return b.String()
+}
+
+// keySort: the SMT sort of store keys of Go type t (byte strings by content, pairs structurally).
+func (vc *VC) keySort(t types.Type) string {
+	if isByteSlice(t) {
+		return "BV"
+	}
+	if name, targs := pairArgs(t); name != "" {
+		var ks []string
+		for i := 0; i < targs.Len(); i++ {
+			ks = append(ks, vc.keySort(targs.At(i)))
+		}
+		sn := "K" + name + "_" + mangle(strings.Join(ks, "_"))
+		var fl []string
+		for i, k := range ks {
+			fl = append(fl, fmt.Sprintf("(%s_%d %s)", sn, i, k))
+		}
+		vc.declSort(fmt.Sprintf("(declare-datatypes ((%s 0)) (((mk_%s %s))))", sn, sn, strings.Join(fl, " ")))
+		return sn
+	}
+	return vc.sortOf(t)
 }
